@@ -152,6 +152,19 @@ def assemble(unit_dir, repo, vacuity=False, variables=None):
                 if real != want:
                     raise ExtractError(f"struct {a['name']} in {a['file']} changed: fields {real} (prelude declares {want})")
                 i += 1; continue
+            if s.startswith("//@check_enum "):
+                a = _attrs(s[len("//@check_enum "):])
+                it = source(a["file"]).find("enum " + a["name"])
+                toks_ = [t for t in tokenize(it.body_text) if t.kind not in ("ws", "comment")]
+                names, depth = [], 0
+                for j, t in enumerate(toks_):
+                    if t.text in "([{": depth += 1
+                    elif t.text in ")]}": depth -= 1
+                    elif depth == 1 and t.kind == "ident" and (toks_[j - 1].text in ("{", ",", "]")):
+                        names.append(t.text)
+                if names != a["variants"].split(","):
+                    raise ExtractError(f"enum {a['name']} in {a['file']} changed: variants {names}")
+                i += 1; continue
             if s.startswith("//@check_no_derive "):
                 a = _attrs(s[len("//@check_no_derive "):])
                 ds = source(a["file"]).derives(a["name"])
@@ -300,7 +313,32 @@ def _emit_fn(g, source, a, blocks, vacuity):
             if t.text == "|" and k >= 1:
                 prev = [x for x in tk[:k] if x.kind not in ("ws", "comment")]
                 nxt = [j for j in range(k + 1, len(tk)) if tk[j].kind not in ("ws", "comment")]
-                if prev and prev[-1].text == "(" and len(nxt) >= 3 and tk[nxt[0]].kind == "ident" and tk[nxt[1]].text == "|" and tk[nxt[2]].text != "->":
+                # closure parameters: a single identifier, or a tuple pattern `(a, _)`
+                pend = None
+                if prev and prev[-1].text == "(" and nxt:
+                    if tk[nxt[0]].kind == "ident" and len(nxt) >= 2 and tk[nxt[1]].text == "|":
+                        pend = 1
+                    elif tk[nxt[0]].text == "(":
+                        cpar = _mc(tk, nxt[0])
+                        after = [j for j in range(cpar + 1, len(tk)) if tk[j].kind not in ("ws", "comment")]
+                        if after and tk[after[0]].text == "|":
+                            pend = nxt.index(after[0])
+                if pend is not None and len(nxt) > pend + 1 and tk[nxt[pend + 1]].text != "->":
+                    params = "".join(("_unused" if (x.kind == "ident" and x.text == "_") else x.text) for x in tk[nxt[0]:nxt[pend]]).strip()
+                    open_idx = max(j for j in range(k) if tk[j].text == "(" and tk[j] is prev[-1])
+                    close_idx = _mc(tk, open_idx)
+                    expr = "".join(x.text for x in tk[nxt[pend + 1]:close_idx]).strip()
+                    if expr.startswith("{"):
+                        inner = expr[1:expr.rstrip().rfind("}")].strip()
+                        if ";" in inner or not expr.rstrip().endswith("}"):
+                            outp.append(t.text); k += 1; continue
+                        expr = inner
+                    outp.append(f"|{params}| -> (o: {a['closure_ty']}) ensures o == {expr} {{ {expr} }}")
+                    rules.append(("R18", f"closure `|{params}| {expr}` annotated with `ensures o == {expr}`"))
+                    k = close_idx
+                    hit += 1
+                    continue
+                if False and prev and prev[-1].text == "(" and len(nxt) >= 3 and tk[nxt[0]].kind == "ident" and tk[nxt[1]].text == "|" and tk[nxt[2]].text != "->":
                     # body runs to the `)` that closes the enclosing call
                     open_idx = max(j for j in range(k) if tk[j].text == "(" and tk[j] is prev[-1])
                     close_idx = _mc(tk, open_idx)
